@@ -264,7 +264,39 @@ func (r *Run) c15Scenario(trans string, I, T time.Duration, name string, answer 
 		}
 	}
 	cs := fmt.Sprintf("%s %s I=%v T=%v: %d pings, %d recycles, %d connections", trans, name, I, T, npings, nrecycle, conns)
-	if model && dropAt == 0 {
+	// the trace puts events of different goroutines (the keepalive's tick, the recovery's completion) into one order by
+	// their time stamps. Two such events a few milliseconds apart have no order that the stamps could tell (the
+	// stamp is taken a few statements away from the effect): such a history is not compared with the sequential model
+	ambiguous := false
+	for i, e := range evs {
+		if e.kind != "recovered" {
+			continue
+		}
+		// a recovery the keepalive started itself runs on the keepalive's goroutine: the ticks around it are ordered
+		ownRecovery := false
+		for j := i - 1; j >= 0; j-- {
+			if evs[j].kind == "recycle" {
+				ownRecovery = true
+			}
+			if evs[j].kind == "recycle" || evs[j].kind == "recovered" || evs[j].kind == "tick" {
+				break
+			}
+		}
+		if ownRecovery {
+			continue
+		}
+		for j := i - 2; j <= i+2; j++ {
+			if j >= 0 && j < len(evs) && evs[j].kind == "tick" {
+				if d := evs[j].at.Sub(e.at); d > -5*time.Millisecond && d < 5*time.Millisecond {
+					ambiguous = true
+				}
+			}
+		}
+	}
+	if ambiguous {
+		r.count("c15." + trans + "." + name + ".tick-and-recovery-within-5ms(not compared with the model)")
+		r.st.Evaluations++
+	} else if model && dropAt == 0 {
 		r.emit(fmt.Sprintf("ka.run %d 0 %s", T.Milliseconds(), strings.Join(in, " ")), strings.Join(out, " "), true)
 	} else {
 		r.st.Evaluations++
@@ -750,7 +782,9 @@ func (r *Run) c15StalePingFailure() {
 // connection that a recovery has established must be left alone too (second run: connection 1 is silent).
 func (r *Run) c15SlowButAnsweringAfterRecovery() {
 	I, T := 100*time.Millisecond, 250*time.Millisecond
-	for _, firstSilent := range []bool{false, true} {
+	for mode := 0; mode < 3; mode++ {
+		firstSilent := mode >= 1
+		slowRecovery := mode == 2 // authenticated; the session answer on a re-dialled connection takes 350 ms (longer than the timeout)
 		time.Sleep(I + 60*time.Millisecond)
 		hub.reset()
 		s := &session{tc: newTestClient(), v: 1, trans: "tcp"}
@@ -785,19 +819,37 @@ func (r *Run) c15SlowButAnsweringAfterRecovery() {
 							fr := respFrame(1, 1, f.Rid, 0, f.Body)
 							time.AfterFunc(150*time.Millisecond, func() { pc.send(fr) })
 						}
+						if f.Type == 1 && (f.Cmd == 2 || f.Cmd == 3) {
+							fr := respFrame(1, f.Cmd, f.Rid, 0, authRespBody("sess", 600000))
+							if ci > 0 {
+								time.AfterFunc(350*time.Millisecond, func() { pc.send(fr) })
+							} else {
+								pc.send(fr)
+							}
+						}
 					}
 				}()
 			}
 		}()
-		err := s.tc.dial(s.tcp.url(), 1, client.Keepalive(I), client.KeepaliveTimeout(T), client.DialTimeout(time.Second))
+		dopts := []client.DialOption{client.Keepalive(I), client.KeepaliveTimeout(T), client.DialTimeout(time.Second), client.AuthTimeout(2 * time.Second)}
+		if slowRecovery {
+			dopts = append(dopts, client.WithAuthTokenGetter(func() (string, error) { return "tok", nil }))
+		}
+		err := s.tc.dial(s.tcp.url(), 1, dopts...)
 		if err == nil {
 			time.Sleep(1800 * time.Millisecond)
+			if slowRecovery {
+				time.Sleep(500 * time.Millisecond)
+			}
 			n := int(atomic.LoadInt32(&nconn))
 			want := 1
 			cs := "tcp I=100ms T=250ms: every heartbeat answered after 150 ms"
 			if firstSilent {
 				want = 2
 				cs = "tcp I=100ms T=250ms: connection 1 never answers; every later connection answers every heartbeat after 150 ms"
+			}
+			if slowRecovery {
+				cs += "; authenticated, the session answer of a recovery takes 350 ms"
 			}
 			if n > want {
 				r.violate(Violation{What: fmt.Sprintf("a peer that answers every heartbeat within the keepalive timeout was declared dead: %d connections instead of %d in 1.8 s", n, want), Case: cs,
@@ -806,7 +858,7 @@ func (r *Run) c15SlowButAnsweringAfterRecovery() {
 				r.violate(Violation{What: "a peer that stopped answering was not detected / the connection was not recycled", Case: cs})
 			}
 			r.st.Evaluations++
-			r.count(fmt.Sprintf("c15.tcp.slow-but-answering.first-silent-%v", firstSilent))
+			r.count(fmt.Sprintf("c15.tcp.slow-but-answering.first-silent-%v.slow-recovery-%v", firstSilent, slowRecovery))
 		}
 		close(stop)
 		s.close()
